@@ -60,7 +60,7 @@ SendTries ==
     SD("o1", "r1", "nosuch", S("one"), TRUE), SD("o1", "r1", "", S("one"), TRUE), SD("o1", "r1", "p", S("over"), TRUE),
     SD("o1", "r1", "p", S("neg"), FALSE), SD("o2", "r1", "p", S("all"), FALSE), SD("g1", "r1", "p", S("one"), TRUE) }
 AccTries == {
-  CA("o1", "r1", L(5), U, 0, 4), CA("o1", "r1", L(5), U, 2, 2), CA("o1", "r2", S("all"), U, 1, 3), CA("o1", "r1", L(5), U, 3, 1),
+  CA("o1", "r1", L(5), U, 0, 4), CA("o1", "r1", L(5), U, 2, 2), CA("o1", "r1", L(8), U, -2, 2), CA("o1", "r2", L(6), U, -3, -1),   \* (the last two: start before the block time, whole schedule in the past) CA("o1", "r2", S("all"), U, 1, 3), CA("o1", "r1", L(5), U, 3, 1),
   CA("o1", "r1", S("over"), U, 0, 4), CA("o1", "r1", S("zero"), U, 0, 4), CA("o1", "r1", S("neg"), U, 0, 4),
   CA("o1", "o2", L(5), U, 0, 4), CA("o1", "mod", L(5), U, 0, 4), CA("r2", "r2", L(5), U, 0, 4), CA("r2", "r1", L(5), U, 0, 4),
   CA("g1", "r1", S("all"), U, 0, 2), CA("g1", "r1", S("over"), U, 0, 2) }
